@@ -308,6 +308,22 @@ func ropeEq(x, y value) value {
 	if r, ok := codeEq(a, b); ok {
 		return r
 	}
+	// decimal renderings of integers: injective
+	if len(a) == 1 && len(b) == 1 {
+		x, y := a[0], b[0]
+		if x.Kind == PInt && y.Kind == PInt {
+			return SymBool{T: fmt.Sprintf("(= %s %s)", x.Lit, y.Lit)}
+		}
+		if y.Kind == PInt {
+			x, y = y, x
+		}
+		if x.Kind == PInt && y.Kind == PLit {
+			if n, err := strconv.ParseInt(y.Lit, 10, 64); err == nil && strconv.FormatInt(n, 10) == y.Lit {
+				return SymBool{T: fmt.Sprintf("(= %s %s)", x.Lit, intLit(n))}
+			}
+			return false
+		}
+	}
 	ta, tb := StrTerm(mkRope(a)), StrTerm(mkRope(b))
 	return SymBool{T: fmt.Sprintf("(= %s %s)", ta, tb)}
 }
